@@ -4,6 +4,8 @@ constant map) it sorts by an injective key; sorting any permutation of the same 
 same list, so the results are functions of the SET, not of the iteration order.
 -/
 import Mathlib.Data.List.Sort
+import Mathlib.Data.List.Perm.Basic
+import Mathlib.Data.List.Rotate
 namespace P2.Props.C19
 open List
 
@@ -31,5 +33,88 @@ theorem sort_by_key_canonical {α : Type} (key : α → Nat) (hinj : Function.In
 /-- non-vacuity: `id` is an injective key on `Nat` and `[3,1,2]` is a permutation of `[2,3,1]` -/
 example : [3, 1, 2].mergeSort (fun a b => decide (a ≤ b)) = [2, 3, 1].mergeSort (fun a b => decide (a ≤ b)) :=
   sort_by_key_canonical id (fun _ _ h => h) _ _ (by decide)
+
+
+/-- `get_sigma_map`'s `neighbors` table: for every class, each member is mapped to the next one,
+cyclically (`subset[n] ↦ subset[(n+1) % len]`); the table is filled class after class in the
+iteration order of a hash map (`partition.into_values()`). -/
+def classPairs (c : List Nat) : List (Nat × Nat) := c.zip (c.rotate 1)
+
+def neighborPairs (classes : List (List Nat)) : List (Nat × Nat) := classes.flatMap classPairs
+
+/-- the value the finished hash map holds for `w`: the LAST insertion with key `w` -/
+def neighbor (classes : List (List Nat)) (w : Nat) : Option Nat :=
+  ((neighborPairs classes).reverse.find? (fun p => p.1 == w)).map (·.2)
+
+theorem classPairs_keys (c : List Nat) : (classPairs c).map (·.1) = c := by
+  unfold classPairs
+  rw [List.map_fst_zip]
+  simp
+
+theorem neighborPairs_keys (classes : List (List Nat)) :
+    (neighborPairs classes).map (·.1) = classes.flatten := by
+  induction classes with
+  | nil => rfl
+  | cons c cs ih =>
+    simp only [neighborPairs, flatMap_cons, map_append, flatten_cons] at *
+    rw [classPairs_keys, ih]
+
+theorem find_of_nodupKeys {l : List (Nat × Nat)} (hnd : (l.map (·.1)).Nodup) (w : Nat) (p : Nat × Nat) :
+    l.find? (fun p => p.1 == w) = some p ↔ p ∈ l ∧ p.1 = w := by
+  induction l with
+  | nil => simp
+  | cons q qs ih =>
+    simp only [map_cons, nodup_cons] at hnd
+    rw [find?_cons]
+    by_cases hq : q.1 = w
+    · simp only [hq, beq_self_eq_true, Option.some.injEq, mem_cons]
+      constructor
+      · rintro rfl; exact ⟨Or.inl rfl, hq⟩
+      · rintro ⟨h | h, hp⟩
+        · exact h.symm
+        · exfalso; apply hnd.1; rw [hq, ← hp]; exact mem_map_of_mem h
+    · have : (q.1 == w) = false := by simpa using hq
+      simp only [this, mem_cons]
+      rw [ih hnd.2]
+      constructor
+      · rintro ⟨h, hp⟩; exact ⟨Or.inr h, hp⟩
+      · rintro ⟨h | h, hp⟩
+        · subst h; exact absurd hp hq
+        · exact ⟨h, hp⟩
+
+/-- **The sigma map does not depend on the order in which the hash map yields the classes.**
+If the classes are pairwise disjoint and duplicate-free (they are the blocks of a partition of the
+routed wires), any permutation of the class list produces the same `neighbors` table. -/
+theorem neighbor_order_indep (cs₁ cs₂ : List (List Nat)) (h : cs₁.Perm cs₂)
+    (hnd : cs₁.flatten.Nodup) (w : Nat) : neighbor cs₁ w = neighbor cs₂ w := by
+  have hp : (neighborPairs cs₁).Perm (neighborPairs cs₂) := by
+    unfold neighborPairs; exact h.flatMap_right _
+  have hk1 : ((neighborPairs cs₁).reverse.map (·.1)).Nodup := by
+    rw [map_reverse, nodup_reverse, neighborPairs_keys]; exact hnd
+  have hk2 : ((neighborPairs cs₂).reverse.map (·.1)).Nodup := by
+    rw [map_reverse, nodup_reverse]
+    exact ((hp.map _).nodup_iff).mp (by rw [neighborPairs_keys]; exact hnd)
+  unfold neighbor
+  congr 1
+  cases h1 : (neighborPairs cs₁).reverse.find? (fun p => p.1 == w) with
+  | some p =>
+    symm
+    rw [find_of_nodupKeys hk2]
+    rw [find_of_nodupKeys hk1] at h1
+    exact ⟨by simpa using hp.mem_iff.mp (by simpa using h1.1), h1.2⟩
+  | none =>
+    cases h2 : (neighborPairs cs₂).reverse.find? (fun p => p.1 == w) with
+    | none => rfl
+    | some p =>
+      exfalso
+      rw [find_of_nodupKeys hk2] at h2
+      have : (neighborPairs cs₁).reverse.find? (fun p => p.1 == w) = some p := by
+        rw [find_of_nodupKeys hk1]
+        exact ⟨by simpa using hp.mem_iff.mpr (by simpa using h2.1), h2.2⟩
+      rw [h1] at this; cases this
+
+/-- non-vacuity / shape: two classes, two orders, the cyclic successor -/
+example : neighbor [[0, 5, 2], [1, 4]] 2 = some 0 ∧ neighbor [[1, 4], [0, 5, 2]] 2 = some 0
+    ∧ neighbor [[1, 4], [0, 5, 2]] 4 = some 1 ∧ neighbor [[3]] 3 = some 3 := by decide
 
 end P2.Props.C19
